@@ -876,11 +876,19 @@ def main(ctx):
                 'n2e of a random integer field and of an affine field of the coordinates, e2n '
                 'mean x {weight False, explicit integer weights, implicit metric} and effective, '
                 'both order1_only values on second-order meshes, field width 1-3, integer values; '
+                'n2e with calc_average=False with / without ravel; e2n with incidence= (own matrix built '
+                'with its own order1_only / arbitrary boolean matrix), strings that are not modes, '
+                'raise_negative_volume both values, tet / hex meshes with inverted elements, keywords '
+                'left out of the call (resolved with the translated defaults); '
                 'one case = one (mesh, query); non-trivial = the implementation returned an '
                 'array; distinct = distinct (mesh, query)')
     ctx.trusted += [
-        'hand model coq/C14/Model.v of signal_processor.py conversions on top of the C13 '
+        'hand model coq/C14/Model.v + Gather.v of signal_processor.py conversions on top of the C13 '
         'incidence model (tie H), pinned by the correspondence',
+        'translate/c14_e2n.py (symbolic execution of convert_elemental2nodal -> coq/C14/gen/E2NProg.v): '
+        'its output is compared with the reference table by a theorem and evaluated in Coq against the '
+        'implementation on every e2n call; the meaning of the sparse-matrix primitives is the '
+        "interpreter's (coq/C14/Prog.v)",
         'floating point is modelled as exact: each float of the implementation enters Coq as its '
         f'exact rational and must lie within 2^-{TOL_BITS} (1 + max|input|) of the model value over Q',
         'element metrics for the implicit weights are computed exactly by harness/c14.py '
@@ -925,7 +933,8 @@ def main(ctx):
         diff = ''
         ok2, _, _ = lib.coq_make(['C14/Corr.vo'])
         if ok2:
-            rc, o, err = ctx.coq_eval('tablediff', 'From FV.C14 Require Import Prog Corr.\n'
+            rc, o, err = ctx.coq_eval('tablediff', 'From Coq Require Import String List.\n'
+                                      'From FV.C14 Require Import Prog Corr.\nOpen Scope string_scope.\n'
                                       'Set Printing Width 100000.\nGoal True. idtac "@@ diff". Abort.\n'
                                       'Eval vm_compute in table_diff.\n')
             diff = ' '.join(lib.parse_marked(o).get('diff', '').split())[:600] if rc == 0 else ''
